@@ -38,7 +38,7 @@ from . import c06_disc as D
 SCALING = {"no": "NO_SCALING", "init": "INITIAL_RESIDUAL_NORM", "ncpl": "N_COUPLING_VARIABLES",
            "sub": "INITIAL_SUBRESIDUAL_NORM", "comp": "INITIAL_RESIDUAL_COMPONENT",
            "scomp": "SCALED_INITIAL_RESIDUAL_COMPONENT"}
-INVS = ["TypeOK", "Budget", "NilExact", "NilStop", "APriori", "APost", "ChainEqualsMonolithic"]
+INVS = ["TypeOK", "Budget", "NilExact", "NilStop", "APriori", "APost", "SeqHandOver", "ChainEqualsMonolithic"]
 RES = "MDA residuals norm"
 
 
@@ -47,7 +47,7 @@ def tla_set(xs):
                            for x in xs) + "}"
 
 
-def consts(*, fams, profiles, seeds, algs=("J", "GS", "CJ", "CGS"), ws=(1, 2), tols=(2, 6), maxits=(2, 4),
+def consts(*, fams, profiles, seeds, algs=("J", "GS", "CJ", "CGS", "SJ", "SGS"), ws=(1, 2), tols=(2, 6), maxits=(2, 4),
            scals=("no", "init"), warm=(False,), nruns=1, selmod=1, selres=(0,), emit=False, rules="repaired"):
     return ("CONSTANTS\n"
             f" Fams = {tla_set(fams)}\n Profiles = {tla_set(profiles)}\n Seeds = {tla_set(seeds)}\n"
@@ -67,6 +67,7 @@ def build_mda(inst, cfg, *, log=None):
     from gemseo.mda.gauss_seidel import MDAGaussSeidel
     from gemseo.mda.jacobi import MDAJacobi
     from gemseo.mda.mda_chain import MDAChain
+    from gemseo.mda.sequential_mda import MDASequential
 
     ds = D.make_disciplines(inst, log)
     ds = [ds[i - 1] for i in cfg["ord"]]
@@ -80,15 +81,23 @@ def build_mda(inst, cfg, *, log=None):
         mda = MDAGaussSeidel(ds, **base, **solver)
     elif alg == "CJ":
         mda = MDAChain(ds, inner_mda_name="MDAJacobi", inner_mda_settings=dict(solver, n_processes=1), **base)
-    else:
+    elif alg == "CGS":
         mda = MDAChain(ds, inner_mda_name="MDAGaussSeidel", inner_mda_settings=solver, **base)
+    else:
+        # the generic sequence: a first MDA with its OWN (looser) tolerance and max_mda_iter, then one
+        # with those of the sequence
+        first = dict(tolerance=0.0 if cfg["t1"] < 0 else 2.0 ** (-cfg["t1"]), max_mda_iter=cfg["m1"], **solver)
+        mk = {"J": lambda **k: MDAJacobi(ds, n_processes=1, **k), "GS": lambda **k: MDAGaussSeidel(ds, **k)}
+        seq = [mk[cfg["a1"]](**first), mk["J" if alg == "SJ" else "GS"](**base, **solver)]
+        mda = MDASequential(ds, mda_sequence=seq, **base)
     mda.scaling = getattr(mda.ResidualScaling, SCALING[cfg["scal"]])
     return mda
 
 
 def solvers_of(mda):
-    """The objects that iterate, in execution order: the MDA itself or the inner MDAs of a chain."""
-    return list(getattr(mda, "inner_mdas", None) or [mda])
+    """The objects that iterate, in execution order: the MDA itself, the inner MDAs of a chain, the MDAs
+    of a sequence."""
+    return list(getattr(mda, "inner_mdas", None) or getattr(mda, "mda_sequence", None) or [mda])
 
 
 def trace_sig(inst, cfg, dw, **more):
@@ -117,8 +126,14 @@ def record_trace(ck, tid, inst, cfg, dw):
                            "out": [D.dyadic_small(v) for v in o]})
         mlog = []
         for m, n in zip(solvers, n0):
-            k = len(m.residual_history) - n
-            mlog.append([k, bool(k > 0 and float(m.normed_residual) <= tol)])
+            if cfg["alg"] in ("SJ", "SGS"):
+                # the MDAs of a sequence reset their history at each execution; one that was skipped has none
+                k = len(m.residual_history)
+                if k == 0:
+                    continue
+            else:
+                k = len(m.residual_history) - n
+            mlog.append([k, bool(k > 0 and float(m.normed_residual) <= float(m.settings.tolerance))])
         events.append({"ev": "end", "run": run, "log": mlog,
                        "y": [D.dyadic_small(v) for v in D.coupling_vector(inst, out)]})
     return {"id": tid, "inst": inst.json(), "cfg": cfg, "events": events, "_sig": sig}
@@ -135,23 +150,29 @@ def trace_cfgs(rnd, inst, env, n, dw=()):
         for j, order in enumerate(sorted(dw)):
             for t, scal in ((-1, "no"), (2, "no"), (4, "ncpl"))[:3 if j < 2 else 1]:
                 out.append({"alg": "GS", "w": 2, "ord": list(order), "t": t, "maxit": mm, "scal": scal,
-                            "warm": False, "runs": 1})
+                            "warm": False, "runs": 1, "a1": "J", "t1": 1, "m1": 1})
     n += len(out)
     for _ in range(4 * n):
         if len(out) >= n:
             break
-        alg = rnd.choice(["J", "GS", "CJ", "CGS"])
+        alg = rnd.choice(["J", "GS", "CJ", "CGS", "SJ", "SGS"])
+        seq = alg in ("SJ", "SGS")
         w = rnd.choice([1, 2, 2, 3])
-        warm = rnd.random() < 0.25 and inst.xs[0] != inst.xs[1]
-        runs = 2 if (warm or (rnd.random() < 0.2 and inst.xs[0] != inst.xs[1])) else 1
+        warm = not seq and rnd.random() < 0.25 and inst.xs[0] != inst.xs[1]
+        runs = 2 if (warm or (not seq and rnd.random() < 0.2 and inst.xs[0] != inst.xs[1])) else 1
         mm = int(env[alg][w - 1][1 if warm else 0])
         lo = 0 if alg in ("GS", "CGS") else 1
         if mm < lo:
             continue
         maxit = rnd.randint(lo, mm)
-        out.append({"alg": alg, "w": w, "ord": list(rnd.choice(perms)), "t": rnd.choice([-1, 1, 2, 3, 4, 6, 8, 12]),
-                    "maxit": maxit, "scal": rnd.choice(["no", "init", "ncpl", "sub", "comp"]),
-                    "warm": bool(warm), "runs": runs})
+        cfg = {"alg": alg, "w": w, "ord": list(rnd.choice(perms)), "t": rnd.choice([-1, 1, 2, 3, 4, 6, 8, 12]),
+               "maxit": maxit, "scal": rnd.choice(["no", "init", "ncpl", "sub", "comp"]),
+               "warm": bool(warm), "runs": runs, "a1": "J", "t1": 1, "m1": 1}
+        if seq:
+            # a first stage with its own, looser tolerance (the envelope is printed for m1 <= maxit)
+            cfg.update(a1=rnd.choice(["J", "GS"]), t1=rnd.choice([1, 2, 3]), m1=rnd.randint(1, maxit),
+                       t=rnd.choice([-1, 4, 6, 8, 12]))
+        out.append(cfg)
     return out
 
 
@@ -189,6 +210,11 @@ RELAX = [1.0, 0.5, 1.2]
 # class, kind of residual the class tests (see MDAReport.tla), inner class of an MDAChain
 CLASSES = [("MDAJacobi", "J", None), ("MDAGaussSeidel", "GS", None), ("MDANewtonRaphson", "J", None),
            ("MDAQuasiNewton", "root", None), ("MDAGSNewton", "both", None), ("MDASequential", "both", None),
+           # generic sequences whose first MDA has its OWN loose tolerance 1e-2 (inner = "first>second")
+           ("MDASequential", "both", "MDAJacobi>MDANewtonRaphson"),
+           ("MDASequential", "both", "MDAGaussSeidel>MDANewtonRaphson"),
+           ("MDASequential", "both", "MDAJacobi>MDAGaussSeidel"),
+           ("MDASequential", "both", "MDAGaussSeidel>MDAJacobi"),
            ("MDAChain", "J", "MDAJacobi"), ("MDAChain", "GS", "MDAGaussSeidel"),
            ("MDAChain", "J", "MDANewtonRaphson"), ("MDAChain", "root", "MDAQuasiNewton"),
            ("MDAChain", "both", "MDAGSNewton")]
@@ -213,11 +239,20 @@ def build_class(inst, conf):
     acc, relax = conf["acc"], conf["relax"]
     fac = MDAFactory()
     if cls == "MDAChain":
-        mda = fac.create(cls, ds, inner_mda_name=inner, **base,
-                         inner_mda_settings={} if inner == "MDAGSNewton" else solver_settings(inner, acc, relax))
+        inner_settings = {} if inner == "MDAGSNewton" else solver_settings(inner, acc, relax)
+        if conf.get("form") == "model":
+            # the settings of the inner MDA as a pydantic model: its defaults must not override what the
+            # chain cascades (tolerance, max_mda_iter, ...)
+            inner_settings = fac.get_class(inner).Settings(**inner_settings)
+        mda = fac.create(cls, ds, inner_mda_name=inner, **base, inner_mda_settings=inner_settings)
     elif cls == "MDAGSNewton":
         mda = fac.create(cls, ds, **base, gauss_seidel_settings=solver_settings("MDAGaussSeidel", acc, relax),
                          newton_settings=solver_settings("MDANewtonRaphson", acc, relax))
+    elif cls == "MDASequential" and inner:
+        a, b = inner.split(">")
+        first = fac.create(a, ds, **dict(base, tolerance=1e-2, max_mda_iter=50), **solver_settings(a, acc, relax))
+        second = fac.create(b, ds, **base, **solver_settings(b, acc, relax))
+        mda = fac.create(cls, ds, mda_sequence=[first, second], **base)
     elif cls == "MDASequential":
         first = fac.create("MDAJacobi", ds, **dict(base, max_mda_iter=2), **solver_settings("MDAJacobi", acc, relax))
         second = fac.create("MDANewtonRaphson", ds, **base, **solver_settings("MDANewtonRaphson", acc, relax))
@@ -229,8 +264,11 @@ def build_class(inst, conf):
 
 
 def conf_sig(inst, conf, **more):
-    name = conf["cls"] if conf["inner"] is None else f"MDAChain[{conf['inner']}]"
-    return dict({"cls": name, "solver": conf["inner"] or conf["cls"], "acc": conf["acc"], "relax": conf["relax"],
+    name = conf["cls"] if conf["inner"] is None else f"{conf['cls']}[{conf['inner']}]"
+    solver = conf["inner"] or conf["cls"]
+    if conf["cls"] == "MDASequential":
+        solver = (conf["inner"] or "MDAJacobi>").split(">")[0]     # the fixed-point stage
+    return dict({"cls": name, "solver": solver, "form": conf.get("form", "dict"), "acc": conf["acc"], "relax": conf["relax"],
                  "relax_is_one": conf["relax"] == 1.0, "scal": conf["scal"], "warm": conf["warm"],
                  "fam": inst.fam, "gs_delayed_weak": bool(conf.get("gs_delayed_weak"))}, **more)
 
@@ -286,11 +324,22 @@ def sample_confs(rnd, case, n, cover):
     out = []
     if inst.fam == "nil":
         # finite termination makes successive residuals coincide: the delta-based accelerations are
-        # always visited there at relaxation 1 (D0602 / D0603 were found on these)
-        for acc in ("Aitken", "Secant"):
+        # visited there at relaxation 1 (D0602, fixed, and D0603 were found on these)
+        for acc in ("Secant",) + (("Aitken",) if rnd.random() < 0.3 else ()):
             order = rnd.choice(perms)
             out.append({"cls": "MDAJacobi", "kind": "J", "inner": None, "acc": acc, "relax": 1.0, "scal": "ncpl",
                         "ord": list(order), "warm": False, "p": 6, "maxit": 200, "gs_delayed_weak": False})
+    else:
+        # an MDAChain whose un-accelerated inner MDA needs more than the default 20 iterations for a tight
+        # tolerance: max_mda_iter = 200 of the chain must reach the inner MDAs whether their settings are
+        # given as a dictionary or as a settings model
+        for form in ("model", "dict") if rnd.random() < 0.5 else ("model",):
+            inner = rnd.choice(["MDAJacobi", "MDAGaussSeidel"])
+            order = rnd.choice(perms)
+            out.append({"cls": "MDAChain", "kind": "chain" if ngroups > 1 else ("J" if inner == "MDAJacobi" else "GS"),
+                        "inner": inner, "acc": "NoTransformation", "relax": rnd.choice([0.5, 1.2]),
+                        "scal": rnd.choice(["no", "ncpl"]), "ord": list(order), "warm": False, "p": 12,
+                        "maxit": 200, "gs_delayed_weak": False, "form": form})
     for _ in range(n):
         pick = None
         if cover:
@@ -300,7 +349,8 @@ def sample_confs(rnd, case, n, cover):
             cls, kind, inner = CLASSES[ci]
             # the Newton-like classes refuse (or do not resolve) weakly coupled disciplines: MDAChain is
             # the documented way to use them there
-            if inner is None and cls in NEEDS_ALL_STRONG and not allstrong:
+            newton = (inner is None and cls in NEEDS_ALL_STRONG) or (cls == "MDASequential" and "Newton" in (inner or ""))
+            if newton and not allstrong:
                 if pick is not None:
                     cover.insert(0, pick)
                 pick = None
@@ -324,7 +374,8 @@ def sample_confs(rnd, case, n, cover):
         order = rnd.choice(perms)
         out.append({"cls": cls, "kind": kind, "inner": inner, "acc": acc, "relax": relax, "scal": scal,
                     "ord": list(order), "warm": bool(warm), "p": rnd.choice([10, 10, 6]), "maxit": 200,
-                    "gs_delayed_weak": cls == "MDAGaussSeidel" and order in dw})
+                    "gs_delayed_weak": cls == "MDAGaussSeidel" and order in dw,
+                    "form": "model" if cls == "MDAChain" and inner != "MDAGSNewton" and rnd.random() < 0.5 else "dict"})
     return out
 
 
@@ -363,7 +414,7 @@ def run(ck: Check):
     else:
         profiles, seeds = (22, 12, 222), range(1, 17)
         ex = dict(ws=(1, 2), tols=(2, 6), maxits=(2,), scals=("no", "init", "comp"))
-        parts, selmod, n_traces, n_runs = 1, 8, 250, 380
+        parts, selmod, n_traces, n_runs = 1, 32, 250, 380
     seeds = list(seeds)
     base = dict(fams=("nil", "con"), profiles=profiles, seeds=seeds)
     spec = "SPECIFICATION Spec\nCHECK_DEADLOCK FALSE\n" + inv_lines()
@@ -409,7 +460,8 @@ def run(ck: Check):
     for i in range(0, len(traces), 400):
         validate_traces(ck, traces[i:i + 400], tconst)
     ck.extra["traces"] = len(traces)
-    ck.extra["traces_by_alg"] = {a: sum(1 for t in traces if t["cfg"]["alg"] == a) for a in ("J", "GS", "CJ", "CGS")}
+    ck.extra["traces_by_alg"] = {a: sum(1 for t in traces if t["cfg"]["alg"] == a)
+                                 for a in ("J", "GS", "CJ", "CGS", "SJ", "SGS")}
 
     # (2) every class x acceleration x relaxation x scaling x order x warm start, judged by MDAReport
     plain = [ci for ci, c in enumerate(CLASSES) if c[1] == "root" or c[2] == "MDAGSNewton"]
